@@ -6,7 +6,7 @@ from typing import Dict, List, Optional
 
 from ..cfg import CFG
 from ..core import Ctx
-from ..model import body_stmts, dotted, kwarg, norm, walk_no_nested
+from ..model import body_stmts, canon, dotted, kwarg, norm, walk_no_nested
 from .common import assigned_value, enclosing, resolve_local, stores_to
 
 CLS = "StatisticalContinuumSampler"
@@ -149,7 +149,9 @@ def rule_generation(ctx: Ctx):
 
 def rule_estimators(ctx: Ctx):
     M = ctx.model
-    specs = [("_set_nb_units_information", "count", {"len(annotations)"}), ("_set_duration_information", "duration", {"unit.segment.duration", "unit.segment.end - unit.segment.start"}),
+    R_ = "{sn}._reference_continuum"
+    specs = [("_set_nb_units_information", "count", {"[len(s) for a, s in {R}._annotations.items()]", "[len(s) for s in {R}._annotations.values()]"}),
+             ("_set_duration_information", "duration", {"[u.segment.duration for a, u in {R}]", "[u.segment.end - u.segment.start for a, u in {R}]"}),
              ("_set_gap_information", "gap", None)]
     for name, role, elts in specs:
         f = ctx.fn(f"{CLS}.{name}", "R-C15-3")
@@ -171,10 +173,8 @@ def rule_estimators(ctx: Ctx):
             continue
         ldef = assigned_value(f.node, lst)
         if elts is not None:
-            okl = len(ldef) == 1 and isinstance(ldef[0], ast.ListComp) and norm(ldef[0].elt) in elts and \
-                norm(ldef[0].generators[0].iter) in (f"{sn}._reference_continuum", f"{sn}._reference_continuum._annotations.items()",
-                                                     f"{sn}._reference_continuum._annotations.values()") and not ldef[0].generators[0].ifs
-            ctx.check(okl, "R-C15-3", f, ldef[0] if ldef else None, f"{role}: the list holds {sorted(elts)[0]} of every unit / annotator of the reference",
+            okl = len(ldef) == 1 and isinstance(ldef[0], ast.ListComp) and canon(ldef[0]) in {canon(e.replace("{R}", f"{sn}._reference_continuum")) for e in elts}
+            ctx.check(okl, "R-C15-3", f, ldef[0] if ldef else None, f"{role}: the list holds the right quantity for every unit / annotator of the reference",
                       bad_detail=f"{role}: the list `{lst}` does not hold the right quantity over the whole reference", key=f"list:{role}")
         else:
             apps = [c for c in walk_no_nested(f.node) if isinstance(c, ast.Call) and norm(c.func) == f"{lst}.append"]
